@@ -287,7 +287,23 @@ func init() {
 		{Name: "c06-ignore", MinSteps: 1, MaxSteps: 3, Durs: []int64{1000, 10000}, PNoSignal: 20, Closure: []int64{0, 10, 200}, IgnoreCancel: 60},
 	}
 	register(&PropDef{ID: "C06",
-		Gen:   func(t *rapid.T) *Case { return genS2(t, "C06", c06, 100, 0, 0) },
+		Gen: func(t *rapid.T) *Case {
+			c := genS2(t, "C06", c06, 100, 0, 0)
+			if rapid.IntRange(0, 5).Draw(t, "silent_plugin") == 0 {
+				// one deployed plugin never says a word: the step is stuck reading from it when the caller
+				// cancels, and only closing the connection gets it out
+				var srcs []string
+				for _, s := range c.Program.Steps {
+					if s.Kind == "plugin" {
+						srcs = append(srcs, c.Program.Src(s.ID))
+					}
+				}
+				if len(srcs) > 0 {
+					c.Plan.Run[srcs[rapid.IntRange(0, len(srcs)-1).Draw(t, "silent_src")]] = world.RunFault{Silent: true}
+				}
+			}
+			return c
+		},
 		Check: s2Check("C06", OracleCancel),
 	})
 
